@@ -335,6 +335,7 @@ func (h *EventHandler) cb(name string) {
 	if f != nil {
 		f()
 	}
+	h.Log.Add(evlog.Rec{K: "ehret." + name, VB: -1})
 }
 
 func (h *EventHandler) Seq() []string {
